@@ -528,6 +528,20 @@ def to_custom_lexer(g, rnd):
     return g
 
 
+def long_names(g, rnd):
+    """names (nonterminals, custom and regex terms) of 30..300 characters that agree in a long common prefix: symbols are bound by their
+    names/ids, so any bounded or prefix comparison of names merges two symbols"""
+    g = clone(g)
+    pre = ''.join(rnd.choice('abcdefghijklmnopqrstuvwxyz_') for _ in range(rnd.choice([29, 31, 32, 40, 63, 64, 70, 130, 255, 256, 300])))
+    if rnd.random() < 0.7: g.nts = [pre.upper() + '_' + n for n in g.nts]
+    for j, t in enumerate(g.terms):
+        if t.kind in ('k', 'r') and (t.name or t.kind == 'k'):
+            base = t.name if t.name else t.display()
+            if all(c.isalnum() or c == '_' for c in base): g.terms[j] = Term(t.kind, t.text, t.prec, t.assoc, name=pre + '_' + base, typed=t.typed)
+            else: g.terms[j] = Term(t.kind, t.text, t.prec, t.assoc, name=pre + '_t%d' % j, typed=t.typed)
+    g.note += '+longnames'
+    return g
+
 def shuffle_symbols(g, rnd, extras=True):
     """an isomorphic grammar with the nonterminals and terms listed in another order (root no longer first), optionally with an
     unused term, an unused nonterminal, and a declared nonterminal that has no rule at all"""
